@@ -8,6 +8,7 @@ whitespace set of str.strip for code points < 128).  All methods also accept con
 import z3
 
 WS = (9, 10, 11, 12, 13, 28, 29, 30, 31, 32)
+SIDE = []       # (guard, condition, text): side conditions of the model itself, discharged by the check that uses it
 
 
 def _ite(c, a, b):
@@ -79,6 +80,13 @@ class MStr:
         return MStr(self.chars, self.start, z3.If(first == -1, 0, last - self.start + 1))
 
     def replace(self, a, b, guard=True):
+        if isinstance(a, str) and len(a) >= 2 and b == "":
+            # removal of a multi-character pattern is modelled as the identity, under the side condition (to be proved by the
+            # check, otherwise the run is inconclusive) that the pattern does not occur in the view
+            k = len(a)
+            occ = [z3.And(self.in_view(p), self.in_view(p + k - 1), *[self.chars[p + j] == ord(a[j]) for j in range(k)]) for p in range(self.L - k + 1)]
+            SIDE.append((guard, z3.Not(z3.Or(*occ)) if occ else z3.BoolVal(True), f"string model limit: replace({a!r}, '') modelled as the identity"))
+            return self
         if not (isinstance(a, str) and isinstance(b, str) and len(a) == 1 and len(b) == 1):
             raise NotImplementedError("replace of single concrete characters only")
         return MStr([z3.If(c == ord(a), ord(b), c) for c in self.chars], self.start, self.length)
